@@ -13,7 +13,7 @@ import hashlib, json, os, random, re, shutil, subprocess, sys, threading, time, 
 
 ROOT = os.path.dirname(os.path.dirname(os.path.abspath(__file__)))
 GIT = threading.Lock()
-FWC = ["C01", "C02", "C03", "C04", "C05", "C06", "C07", "C08", "C09", "C10", "C20"]
+FWC = ["C01", "C02", "C03", "C04", "C05", "C06", "C07", "C08", "C09", "C10", "C20", "C12"]
 MC = ["C11", "C12", "C13", "C06", "C05", "C01", "C04"]
 SIMC = ["C14", "C15", "C16", "C17", "C18", "C19"]
 FILES = {
